@@ -116,6 +116,21 @@ CLAIMED = {
               "The simulator's action loop is represented by the harness loop (msim's loop is outside the anchors)."),
         technique="TLA+ reference vs transcription checked with TLC + trace validation of real evaluations and trigger steps",
     ),
+    "C06": dict(
+        category="model_checking",
+        text=("Compdat.tla: the connection a COMPDAT record creates, as terms for CF, Kh, r0, rw over the cell and the record, "
+              "for the 72 record classes (CF explicit/defaulted, Kh explicit/defaulted/zero, r0, diameter, direction); TLC emits "
+              "the terms (Oracle_Compdat) and harness/compdat compares the stored values of the real Schedule for random "
+              "anisotropic cells in four unit systems, evaluates the Peaceman relation on the stored values and re-enters every "
+              "defaulted quantity.  Connections.tla: the connection list as a state machine (replace in place, numbering, input / "
+              "track order, immediate and end-of-step WPIMULT, WELOPEN on connections), model-checked (only targeted connections "
+              "change); TLC simulation generates histories, the lists of the real Schedule at each report step are "
+              "trace-validated (Trace_Connections)."),
+        design_ref="DESIGN.md section 5, C06",
+        note=("Trusted: TLC; the long double term interpreter; EclipseGrid::getCellDims and UnitSystem for the SI inputs.  "
+              "Histories use vertical wells in their head column and explicit CF/Kh entries; COMPLUMP, COMPSEGS and CSKIN are not modelled."),
+        technique="TLC oracle for the Peaceman case analysis + TLC model checking and trace validation of the connection list state machine",
+    ),
     "C07": dict(
         category="model_checking",
         text=("EclFileFormat.tla holds the published on-disk layout and a transcription of the implementation's seek "
